@@ -555,7 +555,16 @@ def rule_adapters_pass_buffer(ctx):
     ctx.floor("R1", "processor calls in HttpParser adapters", n, 6)
 
 
+def rule_rendering(ctx):
+    """the derived signature is what the parsed head defines: its text rendering has the documented field / separator skeleton
+    (shared with C06.R1 - a stray separator makes the reported signature differ from the one the same headers define)"""
+    from ..engine import report as R
+    from . import C06
+    C06.rule_R1_composite(R.Retag(ctx, "C06."))
+
+
 def run(ctx):
+    rule_rendering(ctx)
     rule_adapters_pass_buffer(ctx)
     rule_R1(ctx)
     rule_R2_R3(ctx)
